@@ -1,19 +1,20 @@
 #!/bin/bash
 # try_mutant.sh <seeded-id> <Cnn> [tier]  -- run a check against a scratch worktree of /repo HEAD with the seeded patch applied.
 # Prints DETECTED / MISSED. Leaves /repo and /verif/evidence untouched.
+VROOT="$(cd "$(dirname "$(readlink -f "$0")")/.." && pwd)"  # the /verif copy this tool belongs to (a vp-run snapshot uses its own)
 id=$1; prop=$2; tier=${3:-quick}
 wt=/tmp/vt/$id-$prop; out=/tmp/vt/out-$id-$prop
 mkdir -p /tmp/vt; rm -rf $out
 git -C /repo worktree remove --force $wt 2>/dev/null
 git -C /repo worktree add --detach $wt HEAD -q || exit 2
-if ! git -C $wt apply /verif/seeded/$id/patch.diff 2>/tmp/vt/apply-$id.err; then
-  if ! git -C $wt apply --3way /verif/seeded/$id/patch.diff 2>>/tmp/vt/apply-$id.err; then
+if ! git -C $wt apply $VROOT/seeded/$id/patch.diff 2>/tmp/vt/apply-$id.err; then
+  if ! git -C $wt apply --3way $VROOT/seeded/$id/patch.diff 2>>/tmp/vt/apply-$id.err; then
     echo "PATCH-CONFLICT $id"; cat /tmp/vt/apply-$id.err | head -5; git -C /repo worktree remove --force $wt; exit 3
   fi
 fi
-VERIF_REPO=$wt VERIF_OUT=$out /verif/run.sh $prop $tier > /tmp/vt/log-$id-$prop.txt 2>&1; rc=$?
+VERIF_REPO=$wt VERIF_OUT=$out $VROOT/run.sh $prop $tier > /tmp/vt/log-$id-$prop.txt 2>&1; rc=$?
 nv=$(grep -c '^VIOLATION' /tmp/vt/log-$id-$prop.txt)
 if [ $rc -eq 1 ] && [ $nv -gt 0 ]; then echo "DETECTED $id by $prop $tier ($nv violation lines): $(grep '^VIOLATION' /tmp/vt/log-$id-$prop.txt | head -1 | cut -c1-300)";
 elif [ $rc -eq 0 ]; then echo "MISSED $id by $prop $tier"; else echo "ERROR rc=$rc $id $prop"; tail -5 /tmp/vt/log-$id-$prop.txt; fi
-git -C /repo worktree remove --force $wt; hh=$(echo "$wt" | md5sum | cut -c1-8); rm -rf $out /verif/harness/bin/*alt.$hh* /verif/harness/bin/vcheck-*-alt.$hh* /verif/harness/bin/overlay-*-alt.$hh* 2>/dev/null
+git -C /repo worktree remove --force $wt; hh=$(echo "$wt" | md5sum | cut -c1-8); rm -rf $out $VROOT/harness/bin/*alt.$hh* $VROOT/harness/bin/vcheck-*-alt.$hh* $VROOT/harness/bin/overlay-*-alt.$hh* 2>/dev/null
 exit 0
